@@ -180,6 +180,11 @@ func CountFaults(q *Req, res *eng.Result) (any bool) {
 		case EvSpyRefuse:
 			any = true
 			res.Faults["bad-status"]++
+		case EvNote:
+			if e.S == "body:read-blocks-until-verdict" {
+				any = true
+				res.Faults["staged-body-read-blocked"]++
+			}
 		}
 	}
 	return
